@@ -5,7 +5,10 @@ import GorumsV.Lemmas.ReplyLoop
   `verdict` is the declarative reading of the property: what a history decides
   when looked at *as a whole* (its last element, the set of replies, the list of
   errors — all computed by folds over the history, not by the loop's state).
-  `spec` = the verdict of the shortest prefix that has one, otherwise `waiting`.
+  `spec` = the verdict of the shortest prefix that has one, otherwise `waiting` —
+  where an Incomplete verdict at the very moment at which the context has ended
+  (its end is the next event) is reported as the context's error (`adjust`:
+  the exhaustion branch consults the context, `incompleteCause`, errors.go).
   `run_eq_spec` says the loop computes exactly that, for every parameter value;
   the remaining theorems read the spec under the *good* parameter values, which
   the tie lemmas (Tie/C02.lean) establish for the expressions found in the tree.
@@ -28,9 +31,20 @@ def verdict (P : Params) (qf : RepMap M → R × Bool) (expected : Nat) (pre : L
       else if P.exhausted (errsOf pre).length (replySet pre).length expected
       then some (.incomplete (errsOf pre) (replySet pre).length) else none
 
+/-- An Incomplete verdict is reported as the context's error when the context has ended,
+    i.e. when its end is the next event (`rest` = the history after the deciding prefix). -/
+def adjust (P : Params) (rest : List (Arrival M E)) : Outcome R E → Outcome R E
+  | .incomplete errs n => exhaustedOutcome P errs n rest
+  | o => o
+
+/-- the verdict of the prefix `p` of the history `as`, as reported -/
+def verdictAt (P : Params) (qf : RepMap M → R × Bool) (expected : Nat) (as p : List (Arrival M E)) :
+    Option (Outcome R E) :=
+  (verdict P qf expected p).map (adjust P (as.drop p.length))
+
 /-- The outcome the property prescribes for a history. -/
 def spec (P : Params) (qf : RepMap M → R × Bool) (expected : Nat) (as : List (Arrival M E)) : Outcome R E :=
-  ((prefixes as).findSome? (verdict P qf expected)).getD .waiting
+  ((prefixes as).findSome? (verdictAt P qf expected as)).getD .waiting
 
 /-! ### the loop computes the spec -/
 
@@ -55,40 +69,47 @@ theorem prefixes_eq {α} (as : List α) : prefixes as = [] :: extensions [] as :
   have := map_prefixes [] as
   simpa using this
 
+theorem drop_snoc {α} (pre : List α) (a : α) (as : List α) :
+    (pre ++ a :: as).drop (pre ++ [a]).length = as := by
+  have h : pre ++ a :: as = (pre ++ [a]) ++ as := by simp
+  rw [h, List.drop_left]
+
 theorem loop_eq (P : Params) (qf : RepMap M → R × Bool) (expected : Nat) (pre as : List (Arrival M E)) :
     (loop P qf expected ⟨errsOf pre, replySet pre⟩ as).1
-      = ((extensions pre as).findSome? (verdict P qf expected)).getD .waiting := by
+      = ((extensions pre as).findSome? (verdictAt P qf expected (pre ++ as))).getD .waiting := by
   induction as generalizing pre with
   | nil => simp [loop, extensions]
   | cons a as ih =>
     have hlast : (pre ++ [a]).getLast? = some a := by simp
+    have hdrop := drop_snoc pre a as
+    have happ : (pre ++ [a]) ++ as = pre ++ a :: as := by simp
     cases a with
     | ctxDone c =>
-      simp [loop, extensions, verdict, hlast, replySet, errsOf, addReplies]
+      simp [loop, extensions, verdictAt, verdict, adjust, hlast, replySet, errsOf, addReplies]
     | error n c =>
       have he : errsOf (pre ++ [Arrival.error n c]) = errsOf pre ++ [(n, c)] := by simp [errsOf]
       have hr : replySet (pre ++ [Arrival.error (M := M) n c]) = replySet pre := by simp [replySet, addReplies]
       have ih' := ih (pre ++ [Arrival.error n c])
-      rw [he, hr] at ih'
-      simp only [loop, extensions, List.findSome?_cons, verdict, hlast, he, hr]
+      rw [he, hr, happ] at ih'
+      simp only [loop, extensions, List.findSome?_cons, verdictAt, verdict, hlast, he, hr, hdrop]
       split
-      · simp
+      · simp [adjust]
       · simp [ih']
     | reply n m =>
       have he : errsOf (pre ++ [Arrival.reply (E := E) n m]) = errsOf pre := by simp [errsOf]
       have hr : replySet (pre ++ [Arrival.reply (E := E) n m]) = (replySet pre).insert n m := by
         simp [replySet, addReplies]
       have ih' := ih (pre ++ [Arrival.reply n m])
-      rw [he, hr] at ih'
-      simp only [loop, extensions, List.findSome?_cons, verdict, hlast, he, hr]
+      rw [he, hr, happ] at ih'
+      simp only [loop, extensions, List.findSome?_cons, verdictAt, verdict, hlast, he, hr, hdrop]
       cases hq : qf ((replySet pre).insert n m) with
       | mk v q =>
         cases q with
-        | true => simp
+        | true => simp [adjust]
         | false =>
           simp only [Bool.false_eq_true, ↓reduceIte]
           split
-          · simp
+          · simp [adjust]
           · simp [ih']
 
 /-- **The loop computes the spec**, for every parameter value, quorum function,
@@ -98,9 +119,10 @@ theorem run_eq_spec (P : Params) (qf : RepMap M → R × Bool) (expected : Nat) 
   unfold run spec
   rw [prefixes_eq]
   simp only [List.findSome?_cons]
-  have h0 : verdict P qf expected ([] : List (Arrival M E)) =
-      if (P.preCheck && P.exhausted 0 0 expected) = true then some (.incomplete [] 0) else none := by
-    simp [verdict]
+  have h0 : verdictAt P qf expected as ([] : List (Arrival M E)) =
+      if (P.preCheck && P.exhausted 0 0 expected) = true then some (exhaustedOutcome P [] 0 as) else none := by
+    simp only [verdictAt, verdict, List.getLast?_nil, List.length_nil, List.drop_zero]
+    split <;> simp [adjust]
   rw [h0]
   split
   · simp
@@ -121,7 +143,7 @@ theorem verdict_none_iff (P : Params) (hP : P.Good) (qf : RepMap M → R × Bool
       (∀ c, pre.getLast? ≠ some (.ctxDone c)) ∧
       (∀ n m, pre.getLast? = some (.reply n m) → (qf (replySet pre)).2 = false) ∧
       answered pre ≠ expected := by
-  obtain ⟨hex, hpre⟩ := hP
+  obtain ⟨hex, hpre, _⟩ := hP
   unfold verdict answered
   cases hl : pre.getLast? with
   | none =>
@@ -148,6 +170,94 @@ theorem verdict_ne_waiting (P : Params) (qf : RepMap M → R × Bool) (expected 
     · simp
     · split <;> simp
 
+/-! helper facts about `adjust`, `verdictAt` and the first prefix with a verdict -/
+
+theorem adjust_eq_waiting {P : Params} {rest : List (Arrival M E)} {o : Outcome R E}
+    (h : adjust P rest o = .waiting) : o = .waiting := by
+  cases o with
+  | incomplete errs n => exact absurd h (exhaustedOutcome_ne_waiting P errs n rest)
+  | ok v => simp [adjust] at h
+  | ctxErr c errs n => simp [adjust] at h
+  | waiting => rfl
+
+theorem adjust_eq_incomplete {P : Params} {rest : List (Arrival M E)} {o : Outcome R E}
+    {errs : List (NodeId × E)} {n : Nat}
+    (h : adjust P rest o = .incomplete errs n) : o = .incomplete errs n := by
+  cases o with
+  | incomplete errs' n' =>
+    obtain ⟨rfl, rfl⟩ := exhaustedOutcome_eq_incomplete (R := R) h
+    rfl
+  | ok v => simp [adjust] at h
+  | ctxErr c errs n => simp [adjust] at h
+  | waiting => simp [adjust] at h
+
+theorem verdictAt_eq_none_iff (P : Params) (qf : RepMap M → R × Bool) (expected : Nat) (as p : List (Arrival M E)) :
+    verdictAt P qf expected as p = none ↔ verdict P qf expected p = none := by
+  simp [verdictAt]
+
+theorem verdictAt_ne_waiting (P : Params) (qf : RepMap M → R × Bool) (expected : Nat) (as p : List (Arrival M E)) :
+    verdictAt P qf expected as p ≠ some .waiting := by
+  intro h
+  unfold verdictAt at h
+  cases hv : verdict P qf expected p with
+  | none => simp [hv] at h
+  | some o =>
+    simp only [hv, Option.map_some, Option.some.injEq] at h
+    have := adjust_eq_waiting h
+    subst this
+    exact verdict_ne_waiting P qf expected p hv
+
+/-- the first prefix on which `f` answers decides `findSome?` over all prefixes -/
+theorem findSome_prefixes_first {α β} (f : List α → Option β) (pre post : List α) (o : β)
+    (h : ∀ p ∈ prefixes pre, p ≠ pre → f p = none) (hv : f pre = some o) :
+    (prefixes (pre ++ post)).findSome? f = some o := by
+  induction pre generalizing f with
+  | nil =>
+    rw [List.nil_append, prefixes_eq, List.findSome?_cons, hv]
+  | cons a pre ih =>
+    rw [List.cons_append, prefixes_cons, List.findSome?_cons, h [] (by simp [prefixes_cons]) (by simp),
+      List.findSome?_map]
+    apply ih (f ∘ (a :: ·))
+    · intro p hp hne
+      exact h (a :: p) (by simp [prefixes_cons, hp]) (by simpa using hne)
+    · exact hv
+
+/-- a prefix of `pre ++ [a]` other than the whole is a prefix of `pre` -/
+theorem mem_prefixes_concat {α} {p pre : List α} {a : α} (h : p ∈ prefixes (pre ++ [a])) (hne : p ≠ pre ++ [a]) :
+    p ∈ prefixes pre := by
+  obtain ⟨s, hs⟩ := mem_prefixes.mp h
+  rcases List.eq_nil_or_concat s with rfl | ⟨s', b, rfl⟩
+  · simp at hs; exact absurd hs.symm hne
+  · rw [List.concat_eq_append, ← List.append_assoc] at hs
+    have := List.append_inj' hs (by simp)
+    exact mem_prefixes.mpr ⟨s', this.1⟩
+
+/-- an outcome other than `waiting` is the (reported) verdict of a prefix of the history -/
+theorem spec_verdict {P : Params} {qf : RepMap M → R × Bool} {expected : Nat} {as : List (Arrival M E)}
+    {o : Outcome R E} (h : spec P qf expected as = o) (ho : o ≠ .waiting) :
+    ∃ p ∈ prefixes as, ∃ o', verdict P qf expected p = some o' ∧ adjust P (as.drop p.length) o' = o := by
+  unfold spec at h
+  cases hf : (prefixes as).findSome? (verdictAt P qf expected as) with
+  | none => rw [hf] at h; exact absurd h.symm ho
+  | some o1 =>
+    rw [hf] at h
+    simp only [Option.getD_some] at h
+    subst h
+    obtain ⟨q, hq, hv⟩ := List.exists_of_findSome?_eq_some hf
+    unfold verdictAt at hv
+    cases hv' : verdict P qf expected q with
+    | none => simp [hv'] at hv
+    | some o' => exact ⟨q, hq, o', hv', by simpa [hv'] using hv⟩
+
+/-- an Incomplete outcome is the Incomplete verdict of a prefix of the history -/
+theorem run_incomplete_verdict {P : Params} {qf : RepMap M → R × Bool} {expected : Nat}
+    {as : List (Arrival M E)} {errs : List (NodeId × E)} {n : Nat}
+    (h : (run P qf expected as).1 = .incomplete errs n) :
+    ∃ p ∈ prefixes as, verdict P qf expected p = some (.incomplete errs n) := by
+  rw [run_eq_spec] at h
+  obtain ⟨p, hp, o', hv, ha⟩ := spec_verdict h (by simp)
+  exact ⟨p, hp, by rw [hv, adjust_eq_incomplete ha]⟩
+
 /-- **Never keeps waiting**: the call is still waiting after a history only if no
     prefix of it (the empty one included: also when nothing is targeted) contains
     a reason to stop. -/
@@ -163,26 +273,28 @@ theorem waiting_iff (P : Params) (qf : RepMap M → R × Bool) (expected : Nat) 
     | some o =>
       right
       -- the first prefix with a verdict decides; all verdicts before it are none
-      cases hf : (prefixes as).findSome? (verdict P qf expected) with
+      exfalso
+      cases hf : (prefixes as).findSome? (verdictAt P qf expected as) with
       | none =>
         have := List.findSome?_eq_none_iff.mp hf p hp
+        rw [verdictAt_eq_none_iff] at this
         simp [hv] at this
       | some o' =>
         rw [hf] at h
         simp at h
         subst h
         -- a verdict is never `waiting`
-        exfalso
         obtain ⟨q, _, hq⟩ := List.exists_of_findSome?_eq_some hf
-        exact verdict_ne_waiting P qf expected q hq
+        exact verdictAt_ne_waiting P qf expected as q hq
   · intro h
-    cases hf : (prefixes as).findSome? (verdict P qf expected) with
+    cases hf : (prefixes as).findSome? (verdictAt P qf expected as) with
     | none => rfl
     | some o =>
+      exfalso
       obtain ⟨q, hq, hv⟩ := List.exists_of_findSome?_eq_some hf
       cases h q hq with
-      | inl h => simp [h] at hv
-      | inr h => simp [h] at hv; simp [← hv]
+      | inl h => rw [(verdictAt_eq_none_iff P qf expected as q).mpr h] at hv; simp at hv
+      | inr h => exact verdict_ne_waiting P qf expected q h
 
 /-- **Incomplete accounting**: under the good parameters an Incomplete outcome
     reports numbers of errors and replies that add up to the number of targeted
@@ -190,37 +302,39 @@ theorem waiting_iff (P : Params) (qf : RepMap M → R × Bool) (expected : Nat) 
 theorem incomplete_accounting (P : Params) (hP : P.Good) (qf : RepMap M → R × Bool) (expected : Nat)
     (as : List (Arrival M E)) (errs : List (NodeId × E)) (n : Nat)
     (h : (run P qf expected as).1 = .incomplete errs n) : errs.length + n = expected := by
-  rw [run_eq_spec] at h
-  unfold spec at h
-  cases hf : (prefixes as).findSome? (verdict P qf expected) with
-  | none => simp [hf] at h
-  | some o =>
-    simp [hf] at h
-    subst h
-    obtain ⟨q, _, hq⟩ := List.exists_of_findSome?_eq_some hf
-    obtain ⟨hex, hpre⟩ := hP
-    unfold verdict at hq
-    simp only [hex, hpre] at hq
-    split at hq
-    · split at hq
-      · simp at hq; obtain ⟨rfl, rfl⟩ := hq; simp_all
-      · simp at hq
+  obtain ⟨q, _, hq⟩ := run_incomplete_verdict h
+  obtain ⟨hex, hpre, _⟩ := hP
+  unfold verdict at hq
+  simp only [hex, hpre] at hq
+  split at hq
+  · split at hq
+    · simp at hq; obtain ⟨rfl, rfl⟩ := hq; simp_all
+    · simp at hq
+  · simp at hq
+  · split at hq
+    · simp at hq; obtain ⟨rfl, rfl⟩ := hq; simp_all
+    · simp at hq
+  · split at hq
     · simp at hq
     · split at hq
       · simp at hq; obtain ⟨rfl, rfl⟩ := hq; simp_all
       · simp at hq
-    · split at hq
-      · simp at hq
-      · split at hq
-        · simp at hq; obtain ⟨rfl, rfl⟩ := hq; simp_all
-        · simp at hq
 
 /-- **Zero targeted nodes**: under the good parameters a call that targets no
-    node is Incomplete at once, whatever arrives. -/
+    node ends at once, whatever arrives: Incomplete — or the context's error if the
+    context has already ended. -/
 theorem zero_targets (P : Params) (hP : P.Good) (qf : RepMap M → R × Bool) (as : List (Arrival M E)) :
-    (run P qf 0 as).1 = .incomplete [] 0 := by
-  obtain ⟨hex, hpre⟩ := hP
-  simp [run, hex, hpre]
+    (run P qf 0 as).1 = (match as with | .ctxDone c :: _ => .ctxErr c [] 0 | _ => .incomplete [] 0) := by
+  have h2 : (run P qf 0 as).1 = exhaustedOutcome P [] 0 as := by
+    obtain ⟨hex, hpre, _⟩ := hP
+    simp [run, hpre, hex]
+  exact h2.trans (exhaustedOutcome_good hP [] 0 as)
+
+/-- … in particular it never waits. -/
+theorem zero_targets_not_waiting (P : Params) (hP : P.Good) (qf : RepMap M → R × Bool) (as : List (Arrival M E)) :
+    (run P qf 0 as).1 ≠ .waiting := by
+  rw [zero_targets P hP]
+  split <;> simp
 
 /-- Why the pre-check matters: without it a call that targets nothing waits
     (until its context ends).  This is the defect of the pinned tree (D1). -/
@@ -236,27 +350,41 @@ theorem ctx_outcome (P : Params) (qf : RepMap M → R × Bool) (expected : Nat)
     (run P qf expected (pre ++ .ctxDone c :: post)).1 = .ctxErr c (errsOf pre) (replySet pre).length := by
   rw [run_eq_spec]
   unfold spec
-  have key : ∀ (pre₀ pre post : List (Arrival M E)),
-      (∀ p ∈ extensions pre₀ pre, verdict P qf expected p = none) →
-      (extensions pre₀ (pre ++ .ctxDone c :: post)).findSome? (verdict P qf expected)
-        = some (.ctxErr c (errsOf (pre₀ ++ pre)) (replySet (pre₀ ++ pre)).length) := by
-    intro pre₀ pre
-    induction pre generalizing pre₀ with
-    | nil =>
-      intro post _
-      simp [extensions, verdict, errsOf, replySet, addReplies]
-    | cons a pre ih =>
-      intro post h
-      simp only [List.cons_append, extensions, List.findSome?_cons]
-      have h1 := h (pre₀ ++ [a]) (by simp [extensions])
-      rw [h1]
-      have := ih (pre₀ ++ [a]) post (fun p hp => h p (by simp [extensions, hp]))
-      simpa using this
-  rw [prefixes_eq] at hpre ⊢
-  simp only [List.findSome?_cons]
-  rw [hpre [] (by simp)]
-  have := key [] pre post (fun p hp => hpre p (by simp [hp]))
-  simp [this]
+  have happ : pre ++ .ctxDone c :: post = (pre ++ [.ctxDone c]) ++ post := by simp
+  have key := findSome_prefixes_first (verdictAt P qf expected (pre ++ [Arrival.ctxDone c] ++ post))
+    (pre ++ [Arrival.ctxDone c]) post (Outcome.ctxErr c (errsOf pre) (replySet pre).length)
+    (fun p hp hne => (verdictAt_eq_none_iff P qf expected _ p).mpr (hpre p (mem_prefixes_concat hp hne)))
+    (by simp [verdictAt, verdict, adjust, errsOf, replySet, addReplies])
+  rw [happ, key]
+  rfl
+
+/-- **Exhaustion**: if a history `pre` is the first to have a verdict and that verdict is
+    Incomplete, the outcome is Incomplete with those lists — unless the context has ended by
+    then (its end is the next event), in which case, under the good parameters, the outcome is
+    the context's error with the same lists ("the context's error when the context ends first"). -/
+theorem exhaustion_outcome (P : Params) (hP : P.Good) (qf : RepMap M → R × Bool) (expected : Nat)
+    (pre post : List (Arrival M E)) (errs : List (NodeId × E)) (n : Nat)
+    (hpre : ∀ p ∈ prefixes pre, p ≠ pre → verdict P qf expected p = none)
+    (hv : verdict P qf expected pre = some (.incomplete errs n)) :
+    (run P qf expected (pre ++ post)).1 =
+      (match post with | .ctxDone c :: _ => .ctxErr c errs n | _ => .incomplete errs n) := by
+  refine Eq.trans ?_ (exhaustedOutcome_good hP errs n post)
+  rw [run_eq_spec]
+  unfold spec
+  rw [findSome_prefixes_first _ pre post (exhaustedOutcome P errs n post)]
+  · rfl
+  · intro p hp hne
+    rw [verdictAt_eq_none_iff]
+    exact hpre p hp hne
+  · simp [verdictAt, hv, adjust]
+
+/-- Why the parameter matters: a loop whose exhaustion branch does not consult the context
+    reports Incomplete although the context had ended (the defect repaired by the C08 "fix:"
+    commit `incompleteCause`). -/
+theorem exhaustion_needs_ctxCause (P : Params) (hc : P.ctxCause = false) (hpre : P.preCheck = true)
+    (hex : ∀ e r x, P.exhausted e r x = decide (e + r = x)) (qf : RepMap M → R × Bool) (c : E) :
+    (run P qf 0 ([.ctxDone c] : List (Arrival M E))).1 = .incomplete [] 0 := by
+  simp [run, hpre, hex, exhaustedOutcome, hc]
 
 /-- **Success**: a reply on which QF reports a quorum, after a history without
     verdict, yields exactly QF's value. -/
@@ -267,30 +395,13 @@ theorem ok_outcome (P : Params) (qf : RepMap M → R × Bool) (expected : Nat)
     (run P qf expected (pre ++ .reply n m :: post)).1 = .ok (qf (replySet (pre ++ [.reply n m]))).1 := by
   rw [run_eq_spec]
   unfold spec
-  have key : ∀ (pre₀ pre : List (Arrival M E)),
-      (∀ p ∈ extensions pre₀ pre, verdict P qf expected p = none) →
-      (qf (replySet (pre₀ ++ pre ++ [.reply n m]))).2 = true →
-      (extensions pre₀ (pre ++ .reply n m :: post)).findSome? (verdict P qf expected)
-        = some (.ok (qf (replySet (pre₀ ++ pre ++ [.reply n m]))).1) := by
-    intro pre₀ pre
-    induction pre generalizing pre₀ with
-    | nil =>
-      intro _ hq
-      simp at hq
-      simp [extensions, verdict, hq]
-    | cons a pre ih =>
-      intro h hq
-      simp only [List.cons_append, extensions, List.findSome?_cons]
-      have h1 := h (pre₀ ++ [a]) (by simp [extensions])
-      rw [h1]
-      have := ih (pre₀ ++ [a]) (fun p hp => h p (by simp [extensions, hp])) (by simpa using hq)
-      simpa using this
-  rw [prefixes_eq] at hpre ⊢
-  simp only [List.findSome?_cons]
-  rw [hpre [] (by simp)]
-  have := key [] pre (fun p hp => hpre p (by simp [hp])) (by simpa using hq)
-  simp at this
-  simp [this]
+  have happ : pre ++ .reply n m :: post = (pre ++ [.reply n m]) ++ post := by simp
+  have key := findSome_prefixes_first (verdictAt P qf expected (pre ++ [Arrival.reply n m] ++ post))
+    (pre ++ [Arrival.reply n m]) post (Outcome.ok (qf (replySet (pre ++ [Arrival.reply n m]))).1)
+    (fun p hp hne => (verdictAt_eq_none_iff P qf expected _ p).mpr (hpre p (mem_prefixes_concat hp hne)))
+    (by simp [verdictAt, verdict, adjust, hq])
+  rw [happ, key]
+  rfl
 
 /-! ### futures (async.go) -/
 
@@ -313,8 +424,8 @@ theorem async_get_stable (f : Async R E) : (f.get.2).get.1 = f.get.1 ∧ f.get.2
 
 /-! ### non-vacuity: concrete histories exercising every outcome -/
 
-def P₁ : Params := { exhausted := fun e r x => decide (e + r = x), preCheck := true }
-theorem P₁_good : P₁.Good := ⟨fun _ _ _ => rfl, rfl⟩
+def P₁ : Params := { exhausted := fun e r x => decide (e + r = x), preCheck := true, ctxCause := true }
+theorem P₁_good : P₁.Good := ⟨fun _ _ _ => rfl, rfl, rfl⟩
 /-- threshold-2 quorum function returning the number of replies -/
 def qf2 : RepMap Nat → Nat × Bool := fun r => (r.length, decide (2 ≤ r.length))
 
@@ -325,5 +436,10 @@ example : (run P₁ qf2 3 [.reply 1 10, .ctxDone "canceled", .reply 3 30] : Outc
     = .ctxErr "canceled" [] 1 := by decide
 example : (run P₁ qf2 3 [.reply 1 10] : Outcome Nat String × _).1 = .waiting := by decide
 example : (run P₁ qf2 0 [] : Outcome Nat String × _).1 = .incomplete [] 0 := by decide
+example : (run P₁ qf2 0 [.ctxDone "canceled"] : Outcome Nat String × _).1 = .ctxErr "canceled" [] 0 := by decide
+example : (run P₁ qf2 2 [.error 1 "x", .error 2 "y", .ctxDone "canceled"] : Outcome Nat String × _).1
+    = .ctxErr "canceled" [(1, "x"), (2, "y")] 0 := by decide
+example : (run P₁ qf2 2 [.error 1 "x", .error 2 "y", .reply 3 1, .ctxDone "canceled"] : Outcome Nat String × _).1
+    = .incomplete [(1, "x"), (2, "y")] 0 := by decide
 
 end GorumsV.C02
